@@ -78,7 +78,18 @@ def gen_case(rng, ctx):
 
 
 def check_case(case, ctx):
-    ds, sch = case["ds"], case["scheme"]
+    """the case's dataset, then the same rankings in another order (other element ids, equal as a multiset) given to the
+    same algorithm objects right afterwards"""
+    judge(case, ctx, case["ds"])
+    ds = case["ds"]
+    if len(ds) >= 2:
+        k = 1 + case["libseed"] % (len(ds) - 1)
+        ctx.count("second_calls_on_reordered_rankings")
+        judge({**case, "reordered_from": ds}, ctx, ds[k:] + ds[:k])
+
+
+def judge(case, ctx, ds):
+    sch = case["scheme"]
     common.set_case(ctx, case)
     dataset = libx.mk_dataset(ds)
     scheme = libx.mk_scheme(sch)
@@ -89,6 +100,8 @@ def check_case(case, ctx):
     ctx.count("scheme:" + case.get("scls", "?"))
     for cfg in dict.fromkeys(case["configs"]):
         sub = {"ds": ds, "scheme": sch, "configs": [cfg], "libseed": case["libseed"]}
+        if "reordered_from" in case:
+            sub["previous_call_on"] = case["reordered_from"]
         st, cons, _ = algos.run_config(cfg, dataset, scheme, False, case["libseed"])
         if st != "ok":
             if st == "exc" and algos.refusal_is_documented(cfg, cons, complete, False):
@@ -136,6 +149,8 @@ def reach(counters, tier, info):
     for name, key, need in [("returned rankings checked", "rankings_checked", 1200 * k),
                             ("single moves priced", "moves_priced", 100000 * k),
                             ("threshold-scale scheme cases", "scheme:S8", 100 * k),
+                            ("second calls of the same objects on the same rankings in another order",
+                             "second_calls_on_reordered_rankings", 800 * k),
                             ("gains below the threshold legitimately left on the table", "gain_left_below_threshold", 5 * k)]:
         v = counters.get(key, 0)
         out.append({"name": name, "observed": v, "required": need, "ok": v >= need})
